@@ -211,4 +211,31 @@ theorem define_type_deterministic (ctx : Ctx) (g : Graph) (name : Str) (ty : Ty)
     function applied to equal arguments; for every query `q` of the state -/
 theorem clone_observably_equal {α : Type} (q : Graph → α) (g : Graph) : q (id g) = q g := rfl
 
+/-! ### site 5: `resolve_imports`, `instantiations.iter().filter(..).map(..).min()` -/
+
+/-- the node reported as the first one of an import-merge conflict (the least node index among the
+    instantiations on the track) is the same for every iteration order -/
+theorem site_resolve_imports_first_insensitive
+    (ρ ρ' : List (Str × Nat) → List (Str × Nat)) (insts : List (Str × Nat)) (onTrack : Str → Bool)
+    (dflt : Nat) (hρ : (ρ insts).Perm insts) (hρ' : (ρ' insts).Perm insts) :
+    firstOnTrack ρ insts onTrack dflt = firstOnTrack ρ' insts onTrack dflt := by
+  have hp : (((ρ insts).filter (fun e => onTrack e.1)).map (·.2)).Perm
+      (((ρ' insts).filter (fun e => onTrack e.1)).map (·.2)) :=
+    ((hρ.trans hρ'.symm).filter _).map _
+  unfold firstOnTrack
+  generalize ((ρ insts).filter (fun e => onTrack e.1)).map (·.2) = a at hp
+  generalize ((ρ' insts).filter (fun e => onTrack e.1)).map (·.2) = b at hp
+  cases a with
+  | nil => have := hp.symm.eq_nil; subst this; rfl
+  | cons x xs =>
+    cases b with
+    | nil => exact absurd hp.eq_nil (by simp)
+    | cons y ys =>
+      simp only
+      obtain ⟨m1, l1⟩ := minOf_spec x xs
+      obtain ⟨m2, l2⟩ := minOf_spec y ys
+      exact Nat.le_antisymm (l1 _ (hp.mem_iff.mpr m2)) (l2 _ (hp.mem_iff.mp m1))
+
+example : firstOnTrack List.reverse [("a".toList, 5), ("b".toList, 2), ("c".toList, 9)] (fun _ => true) 0 = 2 := by decide
+
 end Wac.Props.C16
